@@ -54,6 +54,10 @@
  *   grattr2 nt c1 c2 / vgattr2 V nt c1 c2 / vsattr2 X nt c1 c2
  *                                  GRsetattr / Vsetattr / VSsetattr of a NEW name with c1 values, again with c2 values,
  *                                  then the count the interface reports       -> ok r1 r2 count
+ *   sdfill k n                     n more data sets (rank 1)                      -> ok created
+ *   sdattrfill k obj n             n new one-byte attributes on data set obj      -> ok accepted
+ *   lonevs R / lonevg R            a Vdata / Vgroup with ref R outside every Vgroup: VSlone/Vlone and VSgetid/Vgetid -> ok ref inlone initer
+ *   hlhole tag ref blen            write into the hole of a linked-block element with the file full, then read the hole -> ok wrote readlen allzero firstok
  *   sdmax n                        SDreset_maxopenfiles(n)                        -> ok value | fail
  *   sdgetmax                       SDget_maxopenfiles                             -> ok cur sys
  *   sdnopen                        SDget_numopenfiles                             -> ok n
@@ -550,6 +554,80 @@ static void run_history(char **lines, long *lnos, long n)
             }
             free(b);
             printf("ok %d %d %d\n", r1 != FAIL, r2 != FAIL, cnt);
+        }
+        else if (!strcmp(op, "sdfill")) {
+            /* sdfill k n: n more data sets of rank 1 with a 6-character name */
+            sscanf(L, "%*s %ld %ld", &a[0], &a[1]);
+            int32 dims[1] = {1}; long okc = 0; char *nm = mkname(6, 17);
+            for (long i = 0; i < a[1]; i++) {
+                int32 id = SDcreate(sd[a[0]], nm, DFNT_INT8, 1, dims);
+                if (id != FAIL) { okc++; SDendaccess(id); }
+            }
+            free(nm);
+            printf("ok %ld\n", okc);
+        }
+        else if (!strcmp(op, "sdattrfill")) {
+            /* sdattrfill k obj n: n new one-byte attributes F<i> on data set obj */
+            sscanf(L, "%*s %ld %ld %ld", &a[0], &a[1], &a[2]);
+            static long fseq = 0;
+            int32 sid = SDselect(sd[a[0]], (int32)a[1]); long okc = 0; int8 v = 7;
+            if (sid == FAIL) { printf("fail noobject\n"); continue; }
+            for (long i = 0; i < a[2]; i++) {
+                char nm[32]; sprintf(nm, "F%ld", fseq++);
+                if (SDsetattr(sid, nm, DFNT_INT8, 1, &v) != FAIL) okc++;
+            }
+            SDendaccess(sid);
+            printf("ok %ld\n", okc);
+        }
+        else if (!strcmp(op, "lonevs") || !strcmp(op, "lonevg")) {
+            /* lonevs R / lonevg R: push the highest ref to R-1, create a Vdata / Vgroup (it gets ref R), detach it, and
+               look for it in VSlone / Vlone and in the VSgetid / Vgetid iteration -> ok ref inlone initer */
+            sscanf(L, "%*s %ld", &a[0]);
+            int isvs = op[5] == 's';
+            Hputelement(fid, 777, (uint16)(a[0] - 1), (const uint8 *)"x", 1);
+            int32 ref = FAIL;
+            if (isvs) {
+                int32 k = VSattach(fid, -1, "w");
+                if (k != FAIL) { ref = VSQueryref(k); VSfdefine(k, "A", DFNT_INT8, 1); VSsetfields(k, "A"); int8 z = 1; VSwrite(k, (uint8 *)&z, 1, FULL_INTERLACE); VSsetname(k, "lone"); VSdetach(k); }
+            }
+            else {
+                int32 k = Vattach(fid, -1, "w");
+                if (k != FAIL) { ref = VQueryref(k); Vsetname(k, "lone"); Vdetach(k); }
+            }
+            if (ref == FAIL) { printf("fail nocreate\n"); continue; }
+            int32 *arr = calloc(70000, sizeof(int32));
+            int32 n = isvs ? VSlone(fid, arr, 70000) : Vlone(fid, arr, 70000);
+            int inl = 0, initer = 0;
+            for (int32 i = 0; i < n && i < 70000; i++) if (arr[i] == ref) inl = 1;
+            free(arr);
+            int32 id = -1; long guard = 0;
+            while ((id = isvs ? VSgetid(fid, id) : Vgetid(fid, id)) != FAIL && guard++ < 200000) if (id == ref) initer = 1;
+            printf("ok %d %d %d\n", ref, inl, initer);
+        }
+        else if (!strcmp(op, "hlhole")) {
+            /* hlhole tag ref blen: linked-block element, blocks 0 and 2 written, block 1 a hole; the file is filled to
+               within blen/2 of 2^31-1; a write into the hole must be refused; then the hole must still read as zeros
+               and block 0 as written -> ok wrote readlen allzero firstok */
+            sscanf(L, "%*s %ld %ld %ld", &a[0], &a[1], &a[2]);
+            int32 blen = (int32)a[2];
+            int32 aid = HLcreate(fid, (uint16)a[0], (uint16)a[1], blen, 4);
+            if (aid == FAIL) { printf("fail nocreate\n"); continue; }
+            Hwrite(aid, 4, "abcd");
+            Hseek(aid, 2 * blen, DF_START);
+            Hwrite(aid, 4, "wxyz");
+            filerec_t *fr = HAatom_object(fid);
+            int32 fill = INT32_MAX - fr->f_end_off - blen / 2;
+            int32 faid = Hstartwrite(fid, 778, (uint16)a[1], fill);
+            if (faid != FAIL) Hendaccess(faid);
+            Hseek(aid, blen + 1, DF_START);
+            int32 w = Hwrite(aid, 4, "HOLE");
+            uint8 rb[8]; memset(rb, 0x55, sizeof rb);
+            int32 rl = (Hseek(aid, blen, DF_START) == FAIL) ? -2 : Hread(aid, 8, rb);
+            int allz = 1; for (int i = 0; i < 8; i++) if (rb[i] != 0) allz = 0;
+            uint8 fb[4] = {0};
+            int fok = (Hseek(aid, 0, DF_START) != FAIL && Hread(aid, 4, fb) == 4 && !memcmp(fb, "abcd", 4));
+            Hendaccess(aid);
+            printf("ok %d %d %d %d\n", w == FAIL ? 0 : w, rl, allz, fok);
         }
         else if (!strcmp(op, "sdmax")) {
             sscanf(L, "%*s %ld", &a[0]);
